@@ -457,7 +457,7 @@ class Exec(object):
         extra = None
         if p.get('extra'):
             extra = [('robots', 'off'), ('wpull-argv', '["--warc-file", "a"]'), ('operator', 'Jürgen'),
-                     ('long', ' '.join(['word%d' % i for i in range(400)]))]
+                     ('long', ' '.join(['word%d' % i for i in range(2400)]))]   # > 8 KiB: larger than one buffered write
         self.revisits = RevisitTable()
         params = R.WARCRecorderParams(
             compress=bool(p['compress']), extra_fields=extra, temp_dir=self.tdir, log=bool(p['log']),
